@@ -1,5 +1,6 @@
 import Frp.Lemmas.Base64
 import Frp.Lemmas.Udp
+import Frp.Lemmas.Sudp
 /-
   C03 — UDP tunnels preserve datagram payloads, boundaries and reply addressing.
 
@@ -7,7 +8,10 @@ import Frp.Lemmas.Udp
           Frp/Model/Udp.lean    (UDPPacket JSON body + golib frame limit; ForwardUserConn /
                                  Forwarder / the four work-connection goroutines as a labelled
                                  transition system).
-  Lemmas: Frp/Lemmas/Base64.lean, Frp/Lemmas/Udp.lean.
+          Frp/Model/Sudp.lean   (client/visitor/sudp.go: dispatcher / worker / ForwardUserConn of the
+                                 sudp visitor as a labelled transition system; one visitor connection =
+                                 one work connection = one Forwarder generation).
+  Lemmas: Frp/Lemmas/Base64.lean, Frp/Lemmas/Udp.lean, Frp/Lemmas/Sudp.lean.
 
   Every statement about the forwarding machine is about `run (init …) ls` for an arbitrary label
   list `ls`, i.e. for every interleaving of user datagrams (any number of source addresses),
@@ -369,6 +373,191 @@ theorem model_safe {s : St} (h : Reachable s) (x : View) :
     (s.backendLog.map Prod.snd).count x ≤ s.sentV.count x ∧
     (s.userLog.map uview).count x ≤ (s.replyLog.map Prod.snd).count x :=
   ⟨backend_no_dup h x, reply_no_dup h x⟩
+
+/-! ## 5. sudp visitor: nothing duplicated or invented across replacement of the visitor connection
+
+  `Sudp.run (Sudp.init …) ls` for an arbitrary label list `ls`: every interleaving of user datagrams,
+  dispatcher receives, connection attempts that succeed or fail, writes that succeed or fail, inbound
+  packets and pings, reader failures (peer closed / 60 s silence / bad frame) and worker ends — i.e.
+  any number of replacements of the visitor connection at any point. -/
+
+def SReachable (s : Sudp.St) : Prop := ∃ bs cap ls, s = Sudp.run (Sudp.init bs cap) ls
+
+theorem sudp_reachable_inv {s : Sudp.St} (h : SReachable s) : Sudp.Inv s := by
+  obtain ⟨bs, cap, ls, rfl⟩ := h
+  exact Sudp.inv_run _ (Sudp.inv_init bs cap) ls
+
+/-- **conservation, user → tunnel**: every datagram that arrived at the visitor's socket is, at any
+    time, exactly one of: queued in `sendCh`, held in the `firstPacket` variable of the dispatcher /
+    worker (taken, not yet written), written on exactly one visitor connection, or dropped at a
+    listed site — as multisets over all connections together. -/
+theorem sudp_conservation_up {s : Sudp.St} (h : SReachable s) (x : View) :
+    s.sentV.count x =
+      (s.sendCh.map view).count x + ((Sudp.held s).map view).count x
+        + (s.wire.map Prod.snd).count x + (s.dropUp.map Prod.snd).count x :=
+  (sudp_reachable_inv h).up x
+
+/-- **conservation, tunnel → user** -/
+theorem sudp_conservation_down {s : Sudp.St} (h : SReachable s) (x : View) :
+    (s.inLog.map Prod.snd).count x =
+      (s.readCh.map view).count x + (s.userLog.map uview).count x + (s.dropDown.map Prod.snd).count x :=
+  (sudp_reachable_inv h).down x
+
+theorem sudp_sentV_eq {s : Sudp.St} (h : SReachable s) :
+    s.sentV = s.sent.map (fun e => (some e.1, some (rd s.bs e.2))) :=
+  (sudp_reachable_inv h).sentEq
+
+/-- **no duplication across connection replacement**: over all visitor connections together a
+    payload is written at most as many times as that user address sent it — in particular the
+    datagram that opened a connection is not written again on a later one. -/
+theorem sudp_no_dup_across_connections {s : Sudp.St} (h : SReachable s) (x : View) :
+    (s.wire.map Prod.snd).count x ≤ s.sentV.count x := by
+  have := sudp_conservation_up h x; omega
+
+/-- **no corruption / forgery**: whatever is written on visitor connection `g` has exactly the
+    payload (cut to the packet size) of one datagram some user sent, tagged with that user's address,
+    and `g` is a connection that was established (1 ≤ g ≤ number of connections so far). -/
+theorem sudp_wire_payload_sent {s : Sudp.St} (h : SReachable s) {g : Nat} {a : Option Addr}
+    {b : Option Str} (hm : (g, (a, b)) ∈ s.wire) :
+    ∃ ua p, (ua, p) ∈ s.sent ∧ a = some ua ∧ b = some (rd s.bs p) ∧ 1 ≤ g ∧ g ≤ s.gen := by
+  have hc := sudp_conservation_up h (a, b)
+  have hpos : 0 < (s.wire.map Prod.snd).count (a, b) :=
+    List.count_pos_iff.2 (List.mem_map.2 ⟨(g, (a, b)), hm, rfl⟩)
+  have hs : 0 < s.sentV.count (a, b) := by omega
+  have hmem := List.count_pos_iff.1 hs
+  rw [sudp_sentV_eq h] at hmem
+  obtain ⟨⟨ua, p⟩, hin, heq⟩ := List.mem_map.1 hmem
+  simp only [Prod.mk.injEq] at heq
+  have hg := (sudp_reachable_inv h).wireGen _ hm
+  exact ⟨ua, p, hin, heq.1.symm, heq.2.symm, hg.1, hg.2⟩
+
+/-- **reply routing at the visitor**: a datagram written to user address `a` with payload `q` is
+    one inbound packet of some connection that carried exactly that address and payload -/
+theorem sudp_reply_routing {s : Sudp.St} (h : SReachable s) {a : Addr} {q : Str}
+    (hm : (a, q) ∈ s.userLog) : ∃ g, (g, (some a, some q)) ∈ s.inLog ∧ 1 ≤ g ∧ g ≤ s.gen := by
+  have hc := sudp_conservation_down h (uview (a, q))
+  have hpos : 0 < (s.userLog.map uview).count (uview (a, q)) :=
+    List.count_pos_iff.2 (List.mem_map.2 ⟨(a, q), hm, rfl⟩)
+  have hs : 0 < (s.inLog.map Prod.snd).count (uview (a, q)) := by omega
+  obtain ⟨⟨g, v⟩, hin, heq⟩ := List.mem_map.1 (List.count_pos_iff.1 hs)
+  simp only at heq
+  subst heq
+  have hg := (sudp_reachable_inv h).inGen _ hin
+  exact ⟨g, hin, hg.1, hg.2⟩
+
+/-- no duplicated / invented replies at the visitor -/
+theorem sudp_reply_no_dup {s : Sudp.St} (h : SReachable s) (x : View) :
+    (s.userLog.map uview).count x ≤ (s.inLog.map Prod.snd).count x := by
+  have := sudp_conservation_down h x; omega
+
+/-- the only upstream drop reasons: full queue, failed connection attempt, failed write -/
+theorem sudp_drop_reasons {s : Sudp.St} (h : SReachable s) :
+    ∀ e ∈ s.dropUp, e.1 = Sudp.VDrop.sendFull ∨ e.1 = Sudp.VDrop.connFail ∨ e.1 = Sudp.VDrop.connDown := by
+  intro e he
+  have := (sudp_reachable_inv h).dropReason e he
+  cases hd : e.1 <;> rw [hd] at this <;> simp_all [Sudp.okUp]
+
+/-- … and each with its cause, per step from any state: `sendFull` only with `cap` messages queued
+    (overload); `connFail` only by a failed connection attempt; `connDown` only by a failed write on
+    the visitor connection (the connection is being re-established). -/
+theorem sudp_drop_causes (s : Sudp.St) (l : Sudp.Label) (d : Sudp.VDrop) (x : View)
+    (hgt : s.dropUp.count (d, x) < (Sudp.step s l).dropUp.count (d, x)) :
+    (d = .sendFull ∧ s.cap ≤ s.sendCh.length ∧ ∃ a p, l = .userSend a p) ∨
+    (d = .connFail ∧ s.phase = .connect ∧ l = .connect false) ∨
+    (d = .connDown ∧ s.phase = .work ∧ (l = .sendFirst false ∨ l = .sendNext false)) :=
+  Sudp.drop_causes s l d x hgt
+
+/-- in a run without a drop everything sent is queued, held or written (multiset equality) -/
+theorem sudp_lossless_if_no_drop {s : Sudp.St} (h : SReachable s) (hu : s.dropUp = []) (x : View) :
+    s.sentV.count x = (s.sendCh.map view).count x + ((Sudp.held s).map view).count x
+        + (s.wire.map Prod.snd).count x := by
+  have h1 := sudp_conservation_up h x
+  rw [hu] at h1
+  simpa only [List.map_nil, List.count_nil, Nat.add_zero] using h1
+
+/-- one worker at a time: outside `worker()` neither of its goroutines runs -/
+theorem sudp_one_worker {s : Sudp.St} (h : SReachable s) (hp : s.phase ≠ .work) :
+    s.sender = false ∧ s.reader = false :=
+  (sudp_reachable_inv h).idle hp
+
+/-- **at light load they arrive** (no connection yet): dispatcher takes the datagram, connects,
+    and it is the first message on the new connection `gen+1`; nothing is dropped -/
+theorem sudp_first_datagram_delivered (s : Sudp.St) (a : Addr) (p : Str) (hb : isBytes p = true)
+    (hph : s.phase = .wait) (hq : s.sendCh = []) (hcap : 0 < s.cap) :
+    let s' := Sudp.run s [.userSend a p, .dispTake, .connect true, .sendFirst true]
+    s'.wire = s.wire ++ [(s.gen + 1, (some a, some (rd s.bs p)))] ∧ s'.dropUp = s.dropUp ∧
+      s'.sendCh = [] ∧ s'.phase = .work ∧ s'.sender = true ∧ s'.firstDone = true :=
+  Sudp.first_datagram_delivered s a p hb hph hq hcap
+
+/-- **at light load they arrive** (connection up): written on the current connection -/
+theorem sudp_next_datagram_delivered (s : Sudp.St) (a : Addr) (p : Str) (hb : isBytes p = true)
+    (hph : s.phase = .work) (hs : s.sender = true) (hf : s.firstDone = true) (hq : s.sendCh = [])
+    (hcap : 0 < s.cap) :
+    let s' := Sudp.run s [.userSend a p, .sendNext true]
+    s'.wire = s.wire ++ [(s.gen, (some a, some (rd s.bs p)))] ∧ s'.dropUp = s.dropUp ∧ s'.sendCh = [] :=
+  Sudp.next_datagram_delivered s a p hb hph hs hf hq hcap
+
+/-! ### non-vacuity: two datagrams, the connection is lost, a third datagram -/
+
+/-- "one", "two" on connection 1; the reader fails; "three" opens connection 2 and is the only
+    thing written on it -/
+def sudpDemo : List Sudp.Label :=
+  [.userSend ua [1], .dispTake, .connect true, .sendFirst true, .userSend ua [2], .sendNext true,
+   .readerDie, .senderExit, .workerEnd, .userSend ua [3], .dispTake, .connect true, .sendFirst true]
+
+example : SReachable (Sudp.run (Sudp.init 1500 1024) sudpDemo) := ⟨1500, 1024, sudpDemo, rfl⟩
+example : (Sudp.run (Sudp.init 1500 1024) sudpDemo).wire
+    = [(1, (some ua, some [1])), (1, (some ua, some [2])), (2, (some ua, some [3]))] := by decide +kernel
+/-- a failed attempt loses the datagram that triggered it (and only that one) -/
+example : ((Sudp.run (Sudp.init 1500 1024)
+    [.userSend ua [1], .dispTake, .connect false, .userSend ua [2], .dispTake, .connect true,
+     .sendFirst true]).wire,
+   (Sudp.run (Sudp.init 1500 1024)
+    [.userSend ua [1], .dispTake, .connect false, .userSend ua [2], .dispTake, .connect true,
+     .sendFirst true]).dropUp.map Prod.fst)
+    = ([(1, (some ua, some [2]))], [Sudp.VDrop.connFail]) := by decide +kernel
+/-- a reply for `ub` read from connection 1 goes to `ub` -/
+example : (Sudp.run (Sudp.init 1500 1024)
+    [.userSend ub [1], .dispTake, .connect true, .sendFirst true,
+     .connRecv (packetOf [7, 7] none (some ub)), .sback]).userLog = [(ub, [7, 7])] := by decide +kernel
+
+/-- sub-multiset -/
+def MsSub {α} [DecidableEq α] (a b : List α) : Prop := ∀ x, a.count x ≤ b.count x
+
+def msSub {α} [DecidableEq α] (a b : List α) : Bool := a.all (fun x => decide (a.count x ≤ b.count x))
+
+theorem msSub_sound {α} [DecidableEq α] (a b : List α) : msSub a b = true ↔ MsSub a b := by
+  simp only [msSub, List.all_eq_true, decide_eq_true_eq, MsSub]
+  constructor
+  · intro h x
+    by_cases ha : x ∈ a
+    · exact h x ha
+    · rw [List.count_eq_zero.2 ha]; exact Nat.zero_le _
+  · intro h x _; exact h x
+
+/-- sudp run at light load with scripted connection loss.  `must` = datagrams sent while a connection
+    is up or can be made (they have to arrive), `may` = datagrams that travel while the connection is
+    being (re-)established: those that triggered a connection attempt that was made to fail (dropped
+    by the code as it is; delivering them later would be allowed) and those that re-opened the tunnel
+    after a loss (delivered by the code as it is),
+    `W` = what the far side received over all visitor connections together, `Rs i` / `Us i` = replies
+    sent for / received by user `i`, `bad` = a packet carried a wrong address tag. -/
+def HoldsOnSudp {α} [DecidableEq α] (must may W : List α) (Rs Us : List (List α)) (bad : Bool) : Prop :=
+  MsSub W (must ++ may) ∧ MsSub must W ∧ Us.length = Rs.length ∧ (∀ p ∈ Us.zip Rs, MsEq p.1 p.2) ∧ bad = false
+
+def holdsOnSudp {α} [DecidableEq α] (must may W : List α) (Rs Us : List (List α)) (bad : Bool) : Bool :=
+  msSub W (must ++ may) && msSub must W && Us.length == Rs.length && (Us.zip Rs).all (fun p => msEq p.1 p.2) && !bad
+
+theorem holdsOnSudp_sound {α} [DecidableEq α] (must may W : List α) (Rs Us : List (List α)) (bad : Bool) :
+    holdsOnSudp must may W Rs Us bad = true ↔ HoldsOnSudp must may W Rs Us bad := by
+  simp only [holdsOnSudp, HoldsOnSudp, Bool.and_eq_true, msSub_sound, msEq_sound, beq_iff_eq, List.all_eq_true,
+    Bool.not_eq_true', and_assoc]
+
+/-- the model's own logs satisfy the safety half of that predicate in every reachable state -/
+theorem sudp_model_safe {s : Sudp.St} (h : SReachable s) (x : View) :
+    (s.wire.map Prod.snd).count x ≤ s.sentV.count x ∧
+    (s.userLog.map uview).count x ≤ (s.inLog.map Prod.snd).count x :=
+  ⟨sudp_no_dup_across_connections h x, sudp_reply_no_dup h x⟩
 
 end C03
 end Frp
